@@ -17,9 +17,10 @@ import (
 	"github.com/deadsy/sdfx/sdf"
 	v2 "github.com/deadsy/sdfx/vec/v2"
 	. "verifharness/kit"
+	"verifharness/rendergen"
 )
 
-func main() { Main("C20", checkC20) }
+func main() { Main("C20", checkC20, rendergen.Gen) }
 
 func triTerm(t render.TriangleI) string {
 	return fmt.Sprintf("(%s,%s,%s)", CZ(t[0]), CZ(t[1]), CZ(t[2]))
